@@ -807,7 +807,23 @@ class Executor(object):
 
     def ev_Compare(self, e, p, fctx):
         if len(e.ops) != 1:
-            raise Unsupported("chained comparison")
+            # a < b < c: every operand evaluated once, left to right (operands without
+            # side effects: the conjunction of the pairwise comparisons)
+            vals = [(p, [])]
+            for operand in [e.left] + list(e.comparators):
+                nxt = []
+                for p1, acc in vals:
+                    for p2, v in self.ev(operand, p1, fctx):
+                        nxt.append((p2, acc + [v]))
+                vals = nxt
+            out = []
+            for p1, acc in vals:
+                cs = [self.compare(op, acc[k], acc[k + 1], p1, e.lineno) for k, op in enumerate(e.ops)]
+                if all(isinstance(c, bool) for c in cs):
+                    out.append((p1, all(cs)))
+                else:
+                    out.append((p1, zand(*[c for c in cs if not (isinstance(c, bool) and c)]) if not any(isinstance(c, bool) and not c for c in cs) else False))
+            return out
         out = []
         for p1, l in self.ev(e.left, p, fctx):
             for p2, r in self.ev(e.comparators[0], p1, fctx):
